@@ -238,4 +238,6 @@ silent("C04", "trigger-ge", E(COO, "coo_append", "    if coo.ind[0] == coo.key.s
 fire("C06", "skipgram-decode-dict-size", "R6.2", E(SG, "SkipgramVectorizer.fit", "n_encoded_tokens = len(self._window_sizes) - 1", "n_encoded_tokens = len(self._token_dictionary_)"), "revert of 54088bc")
 silent("C06", "skipgram-decode-freq-len", E(SG, "SkipgramVectorizer.fit", "n_encoded_tokens = len(self._window_sizes) - 1", "n_encoded_tokens = len(self._token_frequencies_)"), "same number written through the frequency table (needs the derived length fact)")
 
+fire("C01", "tree-blocks-swapped", "R1.7", E(TREE, "sequence_tree_skip_grams", "scipy.sparse.hstack([global_counts.T, global_counts])", "scipy.sparse.hstack([global_counts, global_counts.T])"), "directional blocks stacked in the other order than they are labelled")
+
 VARIANTS = V
